@@ -43,17 +43,108 @@ def _match_block(src, start, what):
     return src[j + 1:k - 1]
 
 
+def _block_at(src, j):
+    """text of the brace block whose `{` is at src[j] (without the braces)"""
+    depth, k = 1, j + 1
+    while depth and k < len(src):
+        if src[k] == "{": depth += 1
+        elif src[k] == "}": depth -= 1
+        k += 1
+    return src[j + 1:k - 1]
+
+
+def _arm_body(src, i):
+    """body of a match arm starting right after its `=>` at src[i:]: a brace block, or an
+    expression up to the next top-level comma"""
+    while i < len(src) and src[i].isspace(): i += 1
+    if src[i] == "{":
+        return _block_at(src, i)
+    depth, k = 0, i
+    while k < len(src):
+        ch = src[k]
+        if ch in "({[": depth += 1
+        elif ch in ")}]":
+            if depth == 0: break
+            depth -= 1
+        elif ch == "," and depth == 0: break
+        k += 1
+    return src[i:k]
+
+
+def _resolve_u8(expr, src, what):
+    """a tag expression: integer literal, or a same-file `const NAME: u8 = <literal>;`"""
+    e = expr.strip()
+    m = re.fullmatch(r"(\d[\d_]*)(?:u8)?", e)
+    if m:
+        return int(m.group(1).replace("_", ""))
+    if re.fullmatch(r"[A-Za-z_]\w*", e):
+        m = re.search(r"\bconst\s+" + re.escape(e) + r"\s*:\s*u8\s*=\s*(\d[\d_]*)(?:u8)?\s*;", src)
+        if m:
+            return int(m.group(1).replace("_", ""))
+    raise Fail(f"{REL}: {what}: tag expression `{e}` is neither a literal nor a same-file u8 const")
+
+
+def _ser_tag(src, ty, case, has_payload):
+    what = f"serializer {ty}::{case} arm"
+    pay = r"\(\s*\w+\s*\)" if has_payload else ""
+    # flattened arm
+    m = re.search(r"Value::" + ty + r"\(\s*" + case + pay + r"\s*\)\s*=>", src)
+    if m:
+        body = _arm_body(src, m.end())
+    else:
+        # nested: `Value::<ty>(x) => match x { ... <case>(..) => body ... }`
+        m = re.search(r"Value::" + ty + r"\(\s*(\w+)\s*\)\s*=>\s*match\s+(\w+)\s*\{", src)
+        if not m or m.group(1) != m.group(2):
+            raise Fail(f"{REL}: cannot locate {what}")
+        inner = _block_at(src, m.end() - 1)
+        m2 = re.search(r"(?:^|[\s,{])" + case + pay + r"\s*=>", inner)
+        if not m2:
+            raise Fail(f"{REL}: cannot locate {what} (nested match has no `{case}` arm)")
+        body = _arm_body(inner, m2.end())
+    pushes = re.findall(r"self\.out\.push\(([^()]*)\)", body)
+    if len(pushes) == 1:
+        if has_payload:
+            if "serialize_value(" not in body or body.index("self.out.push(") > body.index("serialize_value("):
+                raise Fail(f"{REL}: {what}: payload is not serialized after the tag")
+        elif "serialize_value(" in body:
+            raise Fail(f"{REL}: {what}: unexpected payload")
+        return _resolve_u8(pushes[0], src, what)
+    if pushes:
+        raise Fail(f"{REL}: {what}: more than one byte pushed")
+    # one level of same-file helper: self.helper(args) with `fn helper(&mut self, p: u8, ..)`
+    calls = re.findall(r"self\.(\w+)\(([^()]*)\)", body)
+    calls = [c for c in calls if c[0] != "serialize_value"]
+    if len(calls) != 1:
+        raise Fail(f"{REL}: {what}: no `self.out.push(..)` and no single helper call in `{body.strip()}`")
+    name, args = calls[0][0], [a.strip() for a in calls[0][1].split(",") if a.strip()]
+    m = re.search(r"\bfn\s+" + re.escape(name) + r"\s*\(\s*&mut\s+self\s*,([^)]*)\)[^{]*\{", src)
+    if not m:
+        raise Fail(f"{REL}: {what}: helper `{name}` not found in the file")
+    params = [p.split(":")[0].strip() for p in m.group(1).split(",") if p.strip()]
+    hbody = _block_at(src, m.end() - 1)
+    hp = re.findall(r"self\.out\.push\(([^()]*)\)", hbody)
+    if len(hp) != 1 or len(params) != len(args):
+        raise Fail(f"{REL}: {what}: helper `{name}` does not push exactly one byte")
+    if has_payload and ("serialize_value(" not in hbody or hbody.index("self.out.push(") > hbody.index("serialize_value(")):
+        raise Fail(f"{REL}: {what}: helper `{name}` does not serialize the payload after the tag")
+    if not has_payload and "serialize_value(" in hbody:
+        raise Fail(f"{REL}: {what}: unexpected payload in helper `{name}`")
+    pushed = hp[0].strip()
+    expr = args[params.index(pushed)] if pushed in params else pushed
+    return _resolve_u8(expr, src, what)
+
+
 def gen():
     src = strip_comments(read(REL))
-    # --- serializer side: Value::Option / Value::Result arms push one literal byte each
-    m = _one(r"Value::Option\(x\)\s*=>\s*match x\s*\{\s*None\s*=>\s*\{\s*self\.out\.push\((\d+)\);\s*\}\s*"
-             r"Some\(x\)\s*=>\s*\{\s*self\.out\.push\((\d+)\);\s*self\.serialize_value\(x\)\?;\s*\}",
-             src, "serializer Option arms")
-    s_none, s_some = int(m.group(1)), int(m.group(2))
-    m = _one(r"Value::Result\(x\)\s*=>\s*match x\s*\{\s*Ok\(x\)\s*=>\s*\{\s*self\.out\.push\((\d+)\);\s*"
-             r"self\.serialize_value\(x\)\?;\s*\}\s*Err\(x\)\s*=>\s*\{\s*self\.out\.push\((\d+)\);\s*"
-             r"self\.serialize_value\(x\)\?;\s*\}", src, "serializer Result arms")
-    s_ok, s_err = int(m.group(1)), int(m.group(2))
+    # --- serializer side: the tag byte pushed for None / Some / Ok / Err.  Accepted shapes: nested
+    # `Value::Option(x) => match x { None => .., Some(x) => .. }` or flattened
+    # `Value::Option(None) => ..`; the byte may be a literal or a same-file `const`, pushed directly
+    # (`self.out.push(T)`) or through one same-file helper `self.helper(T, payload)` that pushes
+    # its parameter before serializing the payload.
+    s_none = _ser_tag(src, "Option", "None", False)
+    s_some = _ser_tag(src, "Option", "Some", True)
+    s_ok = _ser_tag(src, "Result", "Ok", True)
+    s_err = _ser_tag(src, "Result", "Err", True)
     _one(r"Value::Id\(x\)\s*=>\s*\{\s*self\.out\.push\(ID_SIZE\);\s*self\.out\.extend_from_slice\(x\.as_bytes\(\)\);",
          src, "serializer Id arm (push ID_SIZE then the bytes)")
     _one(r"Value::Int\(x\)\s*=>\s*postcard_core::ser::try_push_i64\(", src, "Int serialized as i64")
